@@ -89,6 +89,8 @@ def gen_edges(rng, n, weighted, neg, dense=False):
         m = rng.randrange(max(256, 4 * n + 1), max(256, 4 * n + 1) + 400)
     edges = []
     mode = rng.choice(["ints", "dyadic", "dyadic", "tiny"])
+    if rng.random() < 0.03:
+        mode = "huge"  # multiples of 2**1020 (~1e307): finite weights whose path sums overflow to -inf / +inf after a few edges
     tiny = 2.0 ** -40  # ~9e-13: still exact in both languages, but far below any plausible "rounding noise" tolerance
     for _ in range(m):
         x = rng.random()
@@ -105,6 +107,14 @@ def gen_edges(rng, n, weighted, neg, dense=False):
             w = rng.randrange(lo * 4, 41) / 4.0 if mode == "dyadic" else rng.randrange(lo, 10)
             if mode == "tiny":
                 w = rng.randrange(lo, 10) * tiny
+            if mode == "huge":
+                # kept acyclic (u < v): a negative cycle whose weight overflows is undetectable by comparison (-inf < -inf is
+                # false) and makes BOTH back-ends walk a parent cycle forever - a defect of the algorithm they share (C11's
+                # territory), not a difference between them
+                w = rng.randrange(lo * 3, 10) * 2.0 ** 1020
+                if u == v:
+                    v = (u + 1) % n
+                u, v = min(u, v), max(u, v)
             edges.append([u, v, w])
         else:
             edges.append([u, v])
